@@ -18,6 +18,49 @@ static Verdict run_c08(const Case &c)
     f.distinct = v.distinct;
     return f;
   };
+  if (kind == "big")
+  {
+    // messages of 2^29 bytes and more (the inner hash input crosses 2^32 bits), streamed from a synthetic file
+    uint64_t len = strtoull(c.get("len", "0").c_str(), NULL, 10), pos = (uint64_t)c.geti("pos", 0);
+    uint32_t pat = (uint32_t)c.geti("pat", 1);
+    v.nontrivial = true;
+    v.distinct = fnv64(c.text());
+    v.classes.push_back(64 + len - pos >= (1ull << 29) ? "inner_hash_input>=2^32_bits" : "inner_hash_input_just_below_2^32_bits");
+    bytes want;
+    {
+      bytes kb = key;
+      kb.resize(64, 0);
+      bytes ip(64), op(64);
+      for (int i = 0; i < 64; i++)
+      {
+        ip[(size_t)i] = kb[(size_t)i] ^ 0x36;
+        op[(size_t)i] = kb[(size_t)i] ^ 0x5c;
+      }
+      ref::Hash in(hmode);
+      in.update(ip.data(), 64);
+      static uint8_t buf[1 << 16];
+      for (uint64_t off = pos; off < len;)
+      {
+        size_t n = (size_t)std::min<uint64_t>(sizeof buf, len - off);
+        for (size_t i = 0; i < n; i++)
+          buf[i] = wapi::synth_byte(off + i, pat);
+        in.update(buf, n);
+        off += n;
+      }
+      bytes ih = in.final();
+      ref::Hash out(hmode);
+      out.update(op.data(), 64);
+      out.update(ih.data(), ih.size());
+      want = out.final();
+    }
+    bool acc = false;
+    bytes got = wapi::hmac_synth(hmode, key, len, pat, pos, &want, &acc);
+    if (got != want)
+      return bad("tag over a synthetic " + std::to_string(len - pos) + "-byte message is " + hex(got) + ", RFC 2104 gives " + hex(want));
+    if (!acc)
+      return bad("cmphmac rejects the RFC 2104 tag of a synthetic " + std::to_string(len - pos) + "-byte message");
+    return v;
+  }
   if (kind == "file")
   {
     EncCase e = enc_from(c);
@@ -212,6 +255,31 @@ static void fixed_c08(Ctx &ctx)
 {
   const Prop *p = find_prop("C08");
   uint64_t i = 0;
+  if (ctx.mode == "big")
+  {
+    // (hmode, length): 2^29-64 is the first message whose inner hash input (64 + length bytes) has 2^32 bits
+    std::vector<std::pair<int, uint64_t>> jobs = {{1, (1ull << 29) - 64}, {1, (1ull << 29) - 65}, {0, (1ull << 29) - 64}, {1, (1ull << 29) + 1000}};
+    if (ctx.thorough())
+      for (int hm : {0, 1, 2})
+        for (long d : {-64L, -9L, -8L, 0L, 56L})
+          jobs.push_back({hm, (uint64_t)((1ll << 29) + d)});
+    if (ctx.thorough())
+      jobs.push_back({1, (1ull << 32) + 3});
+    for (auto &j : jobs)
+    {
+      if (!mine(ctx, i++))
+        continue;
+      Case c;
+      c.set("kind", "big");
+      c.seti("hmode", j.first);
+      c.set("len", std::to_string(j.second));
+      c.seti("pat", 4711);
+      c.seti("pos", 0);
+      c.setb("key", expand(j.second + (uint64_t)j.first, 16, 0));
+      eval_fixed(*p, ctx, c);
+    }
+    return;
+  }
   // every message length 0..200 (all residues of the inner hash input mod 64) x 3 hashes, all one-bit neighbours
   for (int hm = 0; hm < 3; hm++)
     for (int len = 0; len <= 200; len++)
